@@ -560,7 +560,36 @@ func T1(p *load.Program, r *report.Report) {
 	if d, ab, ok := dispatchOf("calcPSISectionLength", t.qf, map[string]string{"calcPATSectionLength": "PAT", "calcPMTSectionLength": "PMT"}); ok {
 		checkDisp("f/calc-dispatch", "calcPSISectionLength", d, ab, "calcPATSectionLength", "calcPMTSectionLength")
 	}
-	if fd := p.Decl("writePSISectionSyntaxData"); fd != nil {
+	// the writer's dispatcher: the function that calls writePATSection (writePSISectionSyntaxData today; its caller when that
+	// function is written out in place)
+	dispName := ""
+	if wpat := lookupFunc(p, "writePATSection"); wpat != nil {
+		for _, f := range p.Files {
+			if p.IsTestFile(f.Pos()) {
+				continue
+			}
+			for _, dcl := range f.Decls {
+				fd, ok := dcl.(*ast.FuncDecl)
+				if !ok || fd.Body == nil || fd.Recv != nil {
+					continue
+				}
+				ast.Inspect(fd.Body, func(x ast.Node) bool {
+					if c, ok := x.(*ast.CallExpr); ok && calleeOf(p, c) == wpat {
+						if dispName == "" {
+							dispName = fd.Name.Name
+						} else if dispName != fd.Name.Name {
+							dispName = "?"
+						}
+					}
+					return true
+				})
+			}
+		}
+	}
+	if dispName == "" || dispName == "?" {
+		dispName = "writePSISectionSyntaxData"
+	}
+	if fd := p.Decl(dispName); fd != nil {
 		var q *types.Var
 		qi := -1
 		for i := 0; ; i++ {
@@ -572,12 +601,19 @@ func T1(p *load.Program, r *report.Report) {
 				q, qi = v, i
 			}
 		}
-		if d, ab, ok := dispatchOf("writePSISectionSyntaxData", q, map[string]string{"writePATSection": "PAT", "writePMTSection": "PMT"}); ok {
-			checkDisp("f/write-dispatch", "writePSISectionSyntaxData", d, ab, "writePATSection", "writePMTSection")
+		if q == nil && mentions(p, t.qf, fd.Body) {
+			q = t.qf // no table-id parameter: the dispatch is on the section header's TableID itself
+		}
+		if d, ab, ok := dispatchOf(dispName, q, map[string]string{"writePATSection": "PAT", "writePMTSection": "PMT"}); ok {
+			checkDisp("f/write-dispatch", dispName, d, ab, "writePATSection", "writePMTSection")
 		}
 		// the caller passes the header's table id
 		nCalls, okArg := 0, true
-		self := lookupFunc(p, "writePSISectionSyntaxData")
+		self := lookupFunc(p, dispName)
+		if q == t.qf {
+			r.OK(ruleT1, "f/write-tableid-argument", t.pos(fd), dispName+" dispatches on Header.TableID of the section itself (no table-id parameter to pass)")
+			self = nil
+		}
 		var at ast.Node
 		for _, f := range p.Files {
 			if p.IsTestFile(f.Pos()) {
@@ -594,9 +630,11 @@ func T1(p *load.Program, r *report.Report) {
 				return true
 			})
 		}
-		r.Check(nCalls > 0 && okArg, ruleT1, "f/write-tableid-argument", t.pos(at),
-			fmt.Sprintf("all %d call(s) of writePSISectionSyntaxData pass Header.TableID as the dispatch id", nCalls),
-			"a call of writePSISectionSyntaxData does not pass the section header's TableID (or there is no call)")
+		if q != t.qf {
+			r.Check(nCalls > 0 && okArg, ruleT1, "f/write-tableid-argument", t.pos(at),
+				fmt.Sprintf("all %d call(s) of %s pass Header.TableID as the dispatch id", nCalls, dispName),
+				"a call of "+dispName+" does not pass the section header's TableID (or there is no call)")
+		}
 	} else {
 		r.Unknown(ruleT1, "anchor/writePSISectionSyntaxData", "-", "function not found")
 	}
